@@ -1,5 +1,5 @@
 CFG = {
-    "modules": ["Parsley.Props.C03", "Parsley.Props.C03E2E"],
+    "modules": ["Parsley.Props.C03", "Parsley.Props.C03E2E", "Parsley.Props.C03E2EXref", "Parsley.Props.C03E2EObjStm", "Parsley.Props.C03E2EAll", "Parsley.Props.C03Render"],
     "theorems": [
         "Parsley.C03.identity_mismatch_rejected", "Parsley.C03.identity_mismatch_rejected_second",
         "Parsley.C03.firstPass_reject_lifts", "Parsley.C03.firstPass_direct",
@@ -21,6 +21,32 @@ CFG = {
         "Parsley.LoaderDecoders.applyFilter_no_panic", "Parsley.LoaderDecoders.inflate_no_panic",
         "Parsley.LoaderDecoders.applyFilter_len", "Parsley.LoaderDecoders.load_never_panics",
         "Parsley.LoaderDecoders.size_clause_false",
+        # follow-up C03c: cross-reference stream layouts, object streams, hybrid files, generator link
+        "Parsley.C03.load_defines_exactly_xrefstream", "Parsley.C03.exXFile_wf",
+        "Parsley.LoaderE2E.load_xrefstream", "Parsley.LoaderE2E.load_xrefstream_core", "Parsley.LoaderE2E.xrefinfo_stream",
+        "Parsley.LoaderE2E.section_stream", "Parsley.LoaderE2E.parseXrefStream_written", "Parsley.LoaderE2E.xrefStreamP_decoded",
+        "Parsley.LoaderE2E.xrefSectP_at_digit", "Parsley.LoaderE2E.xwsEol_run", "Parsley.LoaderE2E.stored_decodes",
+        "Parsley.LoaderE2E.stage_with_xs",
+        "Parsley.LoaderE2E.applyFilters_flate_stored", "Parsley.LoaderE2E.applyFilters_flate_pred", "Parsley.LoaderE2E.applyFilters_flate_up",
+        "Parsley.LoaderE2E.streamFilters_unfiltered", "Parsley.LoaderE2E.flateDecode_post",
+        "Parsley.C03.load_defines_exactly_objstm", "Parsley.C03.load_defines_exactly_hybrid", "Parsley.C03.load_defines_exactly_hybrid_objstm",
+        "Parsley.C03.exAFile_wf", "Parsley.C03.exBFile_wf", "Parsley.C03.exCFile_wf",
+        "Parsley.LoaderE2E.load_xrefstream_objstm", "Parsley.LoaderE2E.load_hybrid", "Parsley.LoaderE2E.load_hybrid_objstm",
+        "Parsley.LoaderE2E.load_hybrid_core", "Parsley.LoaderE2E.section_hybrid", "Parsley.LoaderE2E.xrefinfo_hybrid",
+        "Parsley.LoaderE2E.stage_with_xs_objstm",
+        "Parsley.LoaderObjStm.stage_from_objstm", "Parsley.LoaderObjStm.stage_from_objstm_written", "Parsley.LoaderObjStm.WCont.loads",
+        "Parsley.LoaderObjStm.extracts_written", "Parsley.LoaderObjStm.firstPass_mixed", "Parsley.LoaderObjStm.definedStreams_conts",
+        "Parsley.LoaderObjStm.objStmPass_conts",
+        "Parsley.C03.renderHistory_classic_wf_partial", "Parsley.C03.render_classic_loads_partial", "Parsley.C03.render_classic_binds_partial",
+        "Parsley.LoaderE2E.renderObj_simple_partial", "Parsley.LoaderE2E.renderObjs_body", "Parsley.LoaderE2E.trailer_spells",
+        "Parsley.LoaderE2E.tableEnts_tableSubs", "Parsley.LoaderE2E.tableSubs_subOk", "Parsley.LoaderE2E.classicOf_wf",
+        "Parsley.LoaderE2E.render_is_classic", "Parsley.C03.exRev_simple",
+        "Parsley.C03.load_defines_exactly_xrefstream_all", "Parsley.C03.load_defines_exactly_hybrid_all",
+        "Parsley.C03.exDFile_wf", "Parsley.C03.exEFile_wf",
+        "Parsley.LoaderE2E.load_xrefstream_all", "Parsley.LoaderE2E.load_hybrid_all", "Parsley.LoaderE2E.stage_with_xs_all",
+        "Parsley.LoaderObjStm.stage_two_pass_objstm", "Parsley.LoaderObjStm.stage_two_pass_objstm_written",
+        "Parsley.LoaderObjStm.stage_two_pass_from", "Parsley.LoaderObjStm.firstPass_two0", "Parsley.LoaderObjStm.secondPass_two0",
+        "Parsley.LoaderObjStm.tp_loads",
     ],
     "partial": {
         "load_defines_exactly_partial":
@@ -39,11 +65,45 @@ CFG = {
             "give InsufficientContext where it is not (reads_stream_ref); the two-pass stage theorem LoaderTwoPass.load_two_pass (first pass queues them, second "
             "pass loads them) is composed into load_defines_exactly_classic_fwd = LoaderE2E.load_classic_fwd: the same end-to-end statement for files that also "
             "contain streams whose /Length is a reference to an integer object written before OR AFTER the stream (ClassicFile.WFfwd; non-vacuity exFileF_wf: "
-            "holder after the stream). EXCLUDED from the end-to-end theorem (still decided by the correspondence run against the oracle DocSpec.resolve and by kernel-evaluated "
-            "whole-model runs per layout): cross-reference STREAM layouts (/W, /Index, Flate + PNG-Up), object streams, hybrid files, length holders that are "
-            "themselves not plain objects; technical side conditions of the classic theorem: no byte 's' in the white "
-            "space / comments between `startxref` and its number, no further %%EOF after the last one. The link 'DocSpec.renderHistory with kind 0 produces a "
-            "WF ClassicFile' is not proved in general (Spelling.spell -> Spells is C02's spell_is_Spells_partial); ClassicFile is the (more general) declarative layout.",
+            "holder after the stream). "
+            "NOW ALSO PROVED END TO END (follow-up C03c; Props/C03E2EXref.lean, Props/C03E2EObjStm.lean), each a full theorem for its layout class with the same conclusion "
+            "(accepted, root reported, every identifier bound to the value written, nothing else defined): "
+            "(a) load_defines_exactly_xrefstream - single revision with a cross-reference STREAM (XrefStreamFile: the stream object anywhere in the body, objects "
+            "before and after it, startxref at its padding or number): dictionary /Type /XRef, /Size, /W [w0 w1 w2] with EVERY width triple in {0..4}^3 (w1 != 0), "
+            "/Index with ANY subsection partition or omitted (= [0 Size]), rows of type 0/1 as C13's encoder writes them, stored (Stored) unfiltered, or FlateDecode'd "
+            "in stored blocks (any block partition, trailing bytes), or FlateDecode'd with a predictor in /DecodeParms - every predictor C07 covers, in particular PNG Up "
+            "12 as the generator writes it (/Colors, /BitsPerComponent present or defaulted); the cross-reference stream object itself is defined (registered during the walk, "
+            "its own row skipped). Composes C13 index_roundtrip, C06 inflate_stored_roundtrip, C07 predictor_roundtrip, C05 framing, LoaderStage.stage_from. Non-vacuity: "
+            "exXFile_wf = Props/C03.lean's docXrefStream byte for byte; Stored.flate / Stored.flatePred instances. "
+            "(b) load_defines_exactly_objstm - the same files with type-2 rows naming OBJECT STREAMS written in the body (WCont: header pairs in any legal layout, "
+            "anything up to /First, members in any legal spelling with arbitrary gaps between them, unfiltered or FlateDecode'd in stored blocks): every member (n,0) is "
+            "bound to the value written in the stream, every file-level object (containers included) to its value, nothing else. New stage theorem "
+            "LoaderObjStm.stage_from_objstm (first pass over mixed in-file / in-stream infos from any sorted context, definedStreams, objStmPass in set order via C14 "
+            "objstm_roundtrip). Non-vacuity exAFile_wf. "
+            "(c) load_defines_exactly_hybrid / load_defines_exactly_hybrid_objstm - HYBRID files: classic table + trailer /XRefStm -> cross-reference stream object in the body; "
+            "file-level objects listed in either part; hidden objects = free entries in the table + members of object streams listed in the stream. Hypothesis keysNodup "
+            "(every (number, generation) once over table and stream) is exactly 'outside known finding #31' (a hidden object's free entry must not have generation 0). "
+            "Non-vacuity exBFile_wf (hidden 11, 12 with generation 65535), exCFile_wf. "
+            "(d) LINK GENERATOR -> THEOREM (Props/C03Render.lean): renderHistory_classic_wf_partial proves that the file written by the executable spec-side encoder "
+            "DocSpec.renderHistory (the generator of the correspondence run) for ONE revision with a classic table (kind 0, no offset swap / relabel) is the byte string of a "
+            "well-formed ClassicFile whose objects are exactly the (identifier, canonical value) pairs the encoder reports in Said.written; render_classic_loads_partial / "
+            "render_classic_binds_partial compose it with load_defines_exactly_classic. Unrestricted: all choice streams, object padding, ofsAtPad, subsection cuts, header "
+            "widths, entry terminators, Size/Root order, free entries, object 0, leading garbage without the magic, binary comment. _partial because object values are "
+            "restricted to well-formed SCALARS written canonically (Body.val v v, C02.encSimple v): spell => Spells (C02.spell_is_Spells_partial) is not proved for arrays / "
+            "dictionaries, hence no stream objects; side conditions file < 10^10 bytes, generations <= 65535, numbers < 2^63-1, distinct numbers, at least one object. "
+            "(e) load_defines_exactly_xrefstream_all / load_defines_exactly_hybrid_all (Props/C03E2EAll.lean) - the MOST GENERAL single-revision statements: the bodies of (a)-(c) "
+            "may hold objects of ALL kinds at once - plain objects, direct-/Length streams, streams whose /Length is a reference to an integer object written before OR AFTER "
+            "them (second pass; `dep` marks them, HoldersOK), object streams with members - via LoaderObjStm.stage_two_pass_objstm (both passes + object-stream pass from any "
+            "sorted context, generalising LoaderTwoPass to a non-empty context and mixed infos). Non-vacuity exDFile_wf / exEFile_wf (forward /Length stream + holder after it + "
+            "object stream, behind a cross-reference stream and behind a hybrid table). "
+            "LAYOUTS THAT REMAIN without an end-to-end theorem (decided by the correspondence run against the oracle DocSpec.resolve): (1) length holders that are not plain "
+            "file-level integer objects (a holder inside an object stream, or itself dependent), a cross-reference stream object whose own /Length is a reference; "
+            "(2) object streams and cross-reference streams through filter chains other than none / one FlateDecode with stored blocks (Huffman-coded zlib streams, "
+            "ASCIIHex, ASCII85, chains) - C06 has the layer theorems, they are not composed here; (3) hybrid files INSIDE the known finding (hidden generation 0: the model "
+            "loses the object, hybrid_hidden_gen0_witness); (4) object-stream containers whose own /Length is a reference, containers listed but not defined; "
+            "(5) multi-revision files with cross-reference-stream / hybrid sections (C04: histories of ANY number of classic-table revisions are closed by C04.newest_wins_history); (6) the generator link for stream / hybrid layouts and "
+            "for non-scalar values. Technical side conditions of all end-to-end theorems: no byte 's' in the white space / comments between `startxref` and its number, no "
+            "further %%EOF after the last one, files below 2^63 bytes where object streams are involved.",
         "load_never_panics_partial":
             "FULL STATEMENT WANTED: for all inputs parseData never reaches a panic site. PROVED: for every input below 2^62 bytes no panic site of "
             "the loader's glue or of any composed parser is reachable (as before), and NOW ALSO (LoaderDecoders.applyFilter_no_panic, follow-up C03b) no panic "
@@ -98,8 +158,13 @@ LEVEL = {
     "text": "Executable model of parse_data / parse_xref_section / parse_xref_stream / get_xref_info / info_from_xref_entries / parse_objects written "
             "line by line after the code (same exits; panics of the component parsers propagated). Machine-checked for all inputs: an object whose "
             "identifier differs from its cross-reference entry is rejected (both passes); the object-loading stage defines exactly the entries' "
-            "identifiers with the values read at their offsets (direct objects; premise shown satisfiable). The full statement (all layouts, end to "
-            "end) is decided on the real code by the oracle over generated documents covering table / stream / hybrid, /W, /Index, Flate + PNG-Up, "
+            "identifiers with the values read at their offsets (direct objects; premise shown satisfiable). END-TO-END THEOREMS (parseData file = ok, root, "
+            "exactly the objects written) are proved for every single-revision layout class of the statement, each over a declarative layout whose every "
+            "freedom is a field: classic table (ClassicFile), cross-reference stream with any /W widths, /Index partition, unfiltered / Flate stored blocks / "
+            "Flate + PNG-Up or any other C07 predictor (XrefStreamFile), hybrid table + /XRefStm (HybridFile), with objects stored directly or inside object "
+            "streams, stream lengths direct or (forward-)referenced, leading garbage, any legal spelling of every value - composing the component theorems of "
+            "C02, C05, C13, C14, C06, C07; and the executable generator's classic-table output (scalar values) is proved to be such a well-formed layout. "
+            "The full statement over GENERATED files (all layouts, Huffman-coded zlib streams, non-scalar spellings) is decided on the real code by the oracle over generated documents covering table / stream / hybrid, /W, /Index, Flate + PNG-Up, "
             "object streams, direct and referenced /Length, leading garbage; model and code agree on every generated and corrupted file. Known "
             "finding #31 (hybrid, hidden object with a generation-0 free entry is lost) is reproduced, classified on the case and witnessed by a theorem.",
 }
